@@ -434,6 +434,7 @@ func runC09(c *Ctx) {
 		if p == nil {
 			continue
 		}
+		c09KeyFrameCover(c, p)
 		next := p.Fn("animation", "AnimDecoder.NextFrame")
 		reset := p.Fn("animation", "AnimDecoder.Reset")
 		blend := p.Fn("animation", "alphaBlendNRGBA")
@@ -1024,4 +1025,75 @@ func hasSubLoc(set map[string]bool, loc string) bool {
 		}
 	}
 	return false
+}
+
+// R7 key-frame cover: "treating some frames as key frames never changes a result" holds only if a
+// frame is treated as a key frame when the canvas it starts from is certainly fully transparent or
+// fully overwritten. The boolean method of AnimDecoder that takes a frame index (the key-frame test)
+// is evaluated by the S6 class evaluator for a frame that is NOT the first one, whose X (resp. Y)
+// offset is positive, with the previous frame's bounds starting at a positive X (resp. Y) and the
+// previous frame not a key frame: neither "this frame covers the canvas" nor "the previous frame
+// covered it and was disposed" can be true for such a frame, so no path may return true.
+func c09KeyFrameCover(c *Ctx, p *Program) {
+	c.Rule("R7 key-frame cover: the key-frame test of AnimDecoder (a bool method of one int parameter) cannot return true for a non-first frame whose X offset (resp. Y offset) is positive while the previous frame's bounds start at a positive X (resp. Y) and the previous frame was not a key frame (S6 class evaluation; all other inputs unknown): a frame placed off the origin never covers the canvas, whatever its size")
+	pk := p.SSAPkg("animation")
+	if pk == nil {
+		return
+	}
+	n := 0
+	for _, fn := range p.SrcFuncs() {
+		if fn.Pkg != pk || fn.Blocks == nil || !recvNamedIs(fn, "AnimDecoder") {
+			continue
+		}
+		sg := fn.Signature
+		if sg.Params().Len() != 1 || sg.Results().Len() != 1 || types.TypeString(sg.Params().At(0).Type(), nil) != "int" || types.TypeString(sg.Results().At(0).Type(), nil) != "bool" {
+			continue
+		}
+		// it looks at frame offsets (directly or through helpers): the key-frame test
+		for _, axis := range []struct{ off, pt, name string }{{"OffsetX", "X", "X"}, {"OffsetY", "Y", "Y"}} {
+			e := newCE(p)
+			e.params[fn.Params[1]] = avIntSign(sgPos)
+			e.fields["Frame."+axis.off] = avIntSign(sgPos)
+			e.fields["Point."+axis.pt] = avIntSign(sgPos)
+			// "the previous frame was a key frame" is a boolean of the decoder's own state, whatever it is
+			// called and wherever it is kept (directly or in a nested state record): all of them false
+			if dst := structOf(fn.Params[0].Type()); dst != nil {
+				for i := 0; i < dst.NumFields(); i++ {
+					ft := dst.Field(i).Type()
+					if bt, ok := ft.Underlying().(*types.Basic); ok && bt.Kind() == types.Bool {
+						e.fields["AnimDecoder."+dst.Field(i).Name()] = avBool(triFalse)
+					}
+					if nst, ok := ft.Underlying().(*types.Struct); ok {
+						if nn, ok := ft.(*types.Named); ok && nn.Obj().Pkg() == fn.Pkg.Pkg {
+							for j := 0; j < nst.NumFields(); j++ {
+								if bt, ok := nst.Field(j).Type().Underlying().(*types.Basic); ok && bt.Kind() == types.Bool {
+									e.fields[nn.Obj().Name()+"."+nst.Field(j).Name()] = avBool(triFalse)
+								}
+							}
+						}
+					}
+				}
+			}
+			rets, complete := e.run(fn)
+			mayTrue := false
+			for _, r := range rets {
+				if len(r) == 1 && r[0].b != triFalse {
+					mayTrue = true
+				}
+			}
+			n++
+			c.Func(FnName(fn))
+			key := FnName(fn) + ":" + axis.name
+			if !complete {
+				c.Fail("R7-keyframe-cover", key, p.Pos(fn.Pos()), "the class evaluation of the key-frame test did not finish")
+				continue
+			}
+			c.Check(!mayTrue, "R7-keyframe-cover", key, p.Pos(fn.Pos()),
+				"a later frame with a positive "+axis.name+" offset (previous bounds off the origin too, previous frame not a key frame) is never a key frame",
+				fmt.Sprintf("%s can return true for a frame that is not the first one, has a positive %s offset, follows a frame whose bounds do not start at %s = 0 and that was not a key frame: a frame (or a disposed previous frame) as large as the canvas but placed off the origin does not cover it, yet the canvas is cleared before this frame is drawn - pixels of earlier frames outside the frame's rectangle are lost", fn.Name(), axis.name, axis.name))
+		}
+	}
+	if n == 0 {
+		c.AnchorMissing("R7-keyframe-cover", "AnimDecoder method func(int) bool (key-frame test)")
+	}
 }
